@@ -24,6 +24,16 @@ CHECKS = {
              "the real checkers (both directions of the iff).",
         note="Same trusted base as C03.  Floating-point overflow clause: see evidence layers (checked with exact rationals and a tolerance band).",
         technique="TLA+ model checked by TLC (Impl = Exact invariants) + TLC-emitted contracts swept against the real checkers", ref="6/C04"),
+    "C05": dict(
+        text="TLC explores every value of every ordered pair of scaled reps (6 integer reps, 2 minifloats) through the modelled three-stage "
+             "cast pipeline (CastToCommon, ScaleInCommon, CastToTarget as actions) and proves: cleared => every cast defined and exact, "
+             "uncastable => lossy, integral overflow only if real.  For the real library TLC emits all 121 rep pairs x factor grid; integral "
+             "pairs are swept against TLC-computed three-stage contracts (8/16-bit sources exhaustively), floating-path pairs are logged "
+             "around every target limit (nextafter chains), 2^digits, specials and random values, and every record is judged by TLC with "
+             "exact BigInt floating-point values (castability, result = exact cast of the logged intermediate, UB flag).",
+        note="Trusts TLC, BigInt, clang UBSan (float-cast-overflow) as event source, x87 long double.  Floating sources: the scaled "
+             "intermediate is the library's own; only integral sources are held to value x factor (5-bit tolerance band on floats).",
+        technique="TLA+ cast-pipeline model checked by TLC + trace validation of real conversions by TLC (BigInt floating point)", ref="6/C05"),
 }
 
 
